@@ -2,16 +2,22 @@
 (* Validation of what the real writer wrote (code -> spec) for C06 / the writing half of C18: every record of the file  *)
 (* named by TRACE - a term, the operator definitions of the names that occur in its text, and the tokens the real lexer *)
 (* cuts the written text into - must satisfy: the term is one that the term grammar of Syntax.tla gives these tokens     *)
-(* under this table (Relaxed: an operator atom may stand as an operand, which this reader accepts).                      *)
-EXTENDS Syntax, Json, IOUtils
+(* under this table (Relaxed: an operator atom may stand as an operand, which this reader accepts); and the text itself,   *)
+(* character by character, must be cut into those tokens by the token syntax of Lexer.tla - so the written text denotes    *)
+(* the term by the SPECIFICATION of reading (Lexer.tla + Syntax.tla), whatever the real reader does.                         *)
+EXTENDS Syntax, Lexer, Json, IOUtils
 Trace == ndJsonDeserialize(IOEnv.TRACE)
 VARIABLE l
 ToSet(s) == { s[i] : i \in 1..Len(s) }
 Denoted(r) == r.term \in Relaxed(r.toks, ToSet(r.table))
+\* the token syntax of Lexer.tla cuts the written text (followed by ' .') into exactly the tokens the real lexer delivered
+LexAgrees(r) == LET lt == Lex(r.chars) IN
+                /\ Len(lt) = Len(r.raw)
+                /\ \A i \in 1..Len(lt) : lt[i].k = r.raw[i][1] /\ lt[i].v = r.raw[i][2]
 TInit == l = 1 /\ TLCSet(1, 1)
 TStep == /\ l <= Len(Trace)
          /\ \/ Trace[l].ev = "init"
-            \/ Trace[l].ev = "written" /\ Denoted(Trace[l])
+            \/ Trace[l].ev = "written" /\ Denoted(Trace[l]) /\ LexAgrees(Trace[l])
          /\ l' = l + 1
 TSpec == TInit /\ [][TStep]_l
 HW == TLCSet(1, IF TLCGet(1) < l THEN l ELSE TLCGet(1))
